@@ -15,6 +15,12 @@ CHECKS['C01'] = dict(cat='translation_validation', technique='structural transla
 CHECKS['C02'] = dict(cat='translation_validation', technique='structural translation validation (as C01) plus exhaustive constant-propagation grid of GENBBsub vs genbbsub over isotope x level x mode',
    text='bb, the 26 spectrum functions, dshelp1/2, the 45 *low cascades, the alpha-chain units and shared helpers are compared with the reference as in C01; the double-beta half of GENBBsub/genbbsub is specialised by constant propagation on every (isotope, level -1..17, mode 0..25) point and the residual straight-line programs compared: accept/reject, Q, Z, A, EK, level energy, spin flag, de-excitation routine and follow-up chain. Values of pre-computed spectra and rejection trajectories are not decided.',
    note='Same trusted base as C01. Known findings: three reference cascades never ported (Ti46low, W184low, Pt192low), mode-20 level coercion, fermi literal 0.511.', ref='3/C02')
+CHECKS['C05'] = dict(cat='other', technique='constant propagation of the dispatch routine on every published name (prefix helper folded from its own AST) + catalogue/README/enumerator set equality',
+   text='Exhaustive over the finite name sets: genbbsub is specialised on each of the 69+51 published names; the generate stage must call exactly the scheme of that nuclide first and only its documented daughters after it (a double-beta name at most one de-excitation routine plus the documented alpha chain), consume no deviate outside the scheme calls, and be accepted at initialisation; every prefix pair of published names must reach different schemes; unpublished probes are rejected. README appendix lists, the .lis files, the mode table and the dbd_mode_type enumerators are compared as sets.',
+   note='The helper name_starts_with is not assumed to be a prefix test: its current body is folded on the literal arguments (sa/minieval.py; unsupported constructs stop the analysis with exit 2). Scheme bodies are covered by C01/C02.', ref='3/C05')
+CHECKS['C06'] = dict(cat='other', technique='exhaustive constant-propagation grid (51 isotopes x levels -1..17 x modes) of port vs reference accept/reject tables + dominance rules on decay0_generator (throw guards, call-site error discipline)',
+   text='The accept/reject frontier is a finite table written twice as source text (reference GENBBsub, port genbbsub): both are folded by constant propagation on every grid point and the tables compared; tabulated levels and energies are compared with the README table; rejected points must reach no call. gA routing, the level-0 requirement, the supported-nuclide set, inverted-window refusal, the window-capable mode list (= modes for which decay0_bb computes the ratio) and the error test after each genbbsub call are dominance / set-equality rules on the AST.',
+   note='Known findings: mode 20 with level != 0 (reference coerces, port refuses); a window on a non-capable mode is silently ignored by the library. Not decided: that accepted requests always yield events satisfying C03/C04.', ref='3/C06')
 NA = {}
 
 def main():
